@@ -142,7 +142,65 @@ def correspond(ctx):
         impl.append(' '.join(qstr(Q(Fr(float(v))) if isinstance(v, float) else v) for v in out))
         c.count('%s/%s%s' % (cls, 'L' if large else 's', 'S' if sweep else 'n'))
     c.compare(lines, [m.strip() for m in common.driver(lines)], impl)
-    return [c, _correspond_approx(ctx)]
+    return [c, _correspond_init(ctx), _correspond_approx(ctx)]
+
+
+def _correspond_init(ctx):
+    """the REAL constructor Arc(start, radius, rotation, large_arc, sweep, end) on exact rationals: signed radii, flags given
+    as bools / ints, `radians` and `exp` replaced by stand-ins so that rot_matrix is a prescribed exact unit complex; compared
+    with Model.ArcParam.arcInit (abs of the radii, bool() of the flags, then _parameterize)"""
+    from ..exactnum import Q, QC, qstr, sqrt_standin
+    P = ctx.spt.path
+    r = ctx.rng('corr/init')
+    c = Corr('Arc.__init__')
+    units = [(Fr(3, 5), Fr(4, 5)), (Fr(5, 13), Fr(12, 13)), (Fr(-8, 17), Fr(15, 17)), (Fr(1), Fr(0)), (Fr(0), Fr(1)), (Fr(-1), Fr(0)),
+             (Fr(7, 25), Fr(-24, 25)), (Fr(-3, 5), Fr(4, 5))]
+    rq = lambda lo=-6, hi=6: Fr(r.randint(lo, hi), r.choice([1, 1, 2, 4]))
+    lines, impl = [], []
+
+    class Rot(object):
+        """stands for the rotation in degrees; radians() turns it into the Phi object below"""
+        def __init__(self, w):
+            self.w = w
+
+    class Phi(object):
+        def __init__(self, w, sign=None):
+            self.w, self.sign = w, sign
+
+        def __rmul__(self, k):
+            assert isinstance(k, complex) and k.real == 0 and k.imag in (1.0, -1.0), k
+            return Phi(self.w, int(k.imag))
+        __mul__ = __rmul__
+    saved = (P.sqrt, P.acos, P.degrees, P.exp, P.radians, P.np.isclose, P.np.clip)
+    try:
+        P.sqrt = sqrt_standin
+        P.acos = lambda x: (1 - x) * 90
+        P.degrees = lambda x: x
+        P.radians = lambda rot: Phi(rot.w)
+        P.exp = lambda z: z.w if z.sign == 1 else z.w.conjugate()
+        P.np.isclose = lambda a, b, *rr, **k: abs(a - b) <= Fr(1, 10 ** 8)
+        P.np.clip = lambda x, lo, hi: (Q(lo) if x < lo else (Q(hi) if x > hi else x))
+        for it in range(ctx.n(200, 3000)):
+            w = r.choice(units)
+            s_, e_ = (rq(), rq()), (rq(), rq())
+            if s_ == e_:
+                continue
+            rx = Fr(r.randint(1, 6), r.choice([1, 2, 8])) * r.choice([1, 1, -1])
+            ry = Fr(r.randint(1, 6), r.choice([1, 2, 8])) * r.choice([1, 1, -1])
+            la, sw = r.choice([True, False, 0, 1, 2, -1]), r.choice([True, False, 0, 1, 3])
+            try:
+                arc = P.Arc(QC(*s_), QC(rx, ry), Rot(QC(*w)), la, sw, QC(*e_))
+                out = [arc.radius.real, arc.radius.imag, arc.center.real, arc.center.imag, arc.theta, arc.delta]
+                impl.append(' '.join(qstr(Q(Fr(float(v))) if isinstance(v, float) else v) for v in out)
+                            + ' %s %s' % (str(arc.large_arc is True).lower(), str(arc.sweep is True).lower()))
+            except Exception as e:
+                impl.append('raise ' + type(e).__name__)
+            lines.append('arcinit %s %d %d' % (' '.join(qstr(Q(a)) for a in [s_[0], s_[1], e_[0], e_[1], rx, ry, w[0], w[1]]), int(la), int(sw)))
+            c.count('radii signs %s%s, flags %s/%s' % ('+' if rx > 0 else '-', '+' if ry > 0 else '-', type(la).__name__, type(sw).__name__))
+    finally:
+        P.sqrt, P.acos, P.degrees, P.exp, P.radians, P.np.isclose, P.np.clip = saved
+    c.compare(lines, [m.strip() for m in common.driver(lines)], impl)
+    return c
 
 
 def _correspond_approx(ctx):
